@@ -533,6 +533,25 @@ def fact_partition_relay_keeps_inherited(repo):
         return None
 
 
+def fact_scope_follows_memento_fn(repo):
+    """below a memento function the package scope is (re)bound to that function's own package, as a fresh set (no shared mutation)"""
+    try:
+        tree = _parse(repo, "code_hash.py")
+        cls = _find_class(tree, "MementoFunctionHashRule")
+        fn = _find_func(cls, "collect_transitive_dependencies")
+        rebound = False
+        for n in ast.walk(fn):
+            if isinstance(n, ast.Assign) and len(n.targets) == 1 and isinstance(n.targets[0], ast.Name) and n.targets[0].id == "package_scope":
+                attrs = {x.attr for x in ast.walk(n.value) if isinstance(x, ast.Attribute)}
+                if isinstance(n.value, ast.Set) and "__package__" in attrs:
+                    rebound = True
+            if isinstance(n, ast.Call) and isinstance(n.func, ast.Attribute) and n.func.attr in ("add", "update") and isinstance(n.func.value, ast.Name) and n.func.value.id == "package_scope":
+                return False        # mutating the shared set makes the result depend on visiting order
+        return rebound
+    except Exception:
+        return None
+
+
 FACTS = []
 
 
@@ -666,6 +685,11 @@ def _f24(repo):
 @fact("partition_relay_keeps_inherited", "option bool")
 def _f25(repo):
     return _opt_bool(fact_partition_relay_keeps_inherited(repo))
+
+
+@fact("scope_follows_memento_fn", "option bool")
+def _f26(repo):
+    return _opt_bool(fact_scope_follows_memento_fn(repo))
 
 
 def generate(repo):
